@@ -3,6 +3,7 @@
 package props
 
 import (
+	"go/constant"
 	"go/token"
 	"go/types"
 
@@ -212,4 +213,8 @@ func atomNonNil(name string, v ssa.Value) *core.Atom {
 		}
 		return core.Iff(op == token.NEQ)
 	}}
+}
+
+func constInt64(o *types.Const) (int64, bool) {
+	return constant.Int64Val(constant.ToInt(o.Val()))
 }
